@@ -862,6 +862,98 @@ def _names_in(e: ast.AST) -> Set[str]:
     return out
 
 
+def _attr_chain(e: ast.AST) -> Optional[str]:
+    parts = []
+    while isinstance(e, ast.Attribute):
+        parts.append(e.attr)
+        e = e.value
+    if isinstance(e, ast.Name) and e.id == "self" and parts:
+        return ".".join(["self"] + list(reversed(parts)))
+    return None
+
+
+def eliminate_self_aliases(fn) -> int:
+    """x = self.a.b  (x bound exactly once, never a parameter; self.a / self.a.b not re-bound after that line in the function)
+    -> every later read of x is written self.a.b and the alias statement is dropped.  Covers local aliases of attributes and of
+    bound methods (`add = self.solver.add_constraint`)."""
+    if isinstance(fn, ast.Lambda):
+        return 0
+    params = {a.arg for a in ast.walk(fn.args) if isinstance(a, ast.arg)}
+    stores: Dict[str, List[ast.AST]] = {}
+    attr_stores: List[Tuple[str, int]] = []
+    nested_uses = set()
+    for n in ast.walk(fn):
+        if isinstance(n, ast.Name) and isinstance(n.ctx, (ast.Store, ast.Del)):
+            stores.setdefault(n.id, []).append(n)
+        elif isinstance(n, ast.Attribute) and isinstance(n.ctx, (ast.Store, ast.Del)):
+            c = _attr_chain(n)
+            if c:
+                attr_stores.append((c, getattr(n, "lineno", 0)))
+        elif isinstance(n, (ast.FunctionDef, ast.AsyncFunctionDef, ast.Lambda)) and n is not fn:
+            for x in ast.walk(n):
+                if isinstance(x, ast.Name):
+                    nested_uses.add(x.id)
+        elif isinstance(n, (ast.Global, ast.Nonlocal)):
+            return 0
+    cands: Dict[str, Tuple[ast.Assign, ast.AST]] = {}
+
+    def scan(stmts):
+        for st in stmts:
+            if isinstance(st, ast.Assign) and len(st.targets) == 1 and isinstance(st.targets[0], ast.Name) and _attr_chain(st.value):
+                nm = st.targets[0].id
+                chain = _attr_chain(st.value)
+                if nm not in params and len(stores.get(nm, [])) == 1 and nm not in nested_uses and \
+                        not any((c == chain or chain.startswith(c + ".")) and ln >= st.lineno for c, ln in attr_stores):
+                    cands[nm] = (st, st.value)
+            for fld in ("body", "orelse", "finalbody"):
+                if isinstance(getattr(st, fld, None), list) and not isinstance(st, (ast.FunctionDef, ast.AsyncFunctionDef, ast.ClassDef)):
+                    scan(getattr(st, fld))
+            for h in getattr(st, "handlers", []) or []:
+                scan(h.body)
+    scan(fn.body)
+    if not cands:
+        return 0
+
+    class R(ast.NodeTransformer):
+        def visit_Name(self, node):
+            if isinstance(node.ctx, ast.Load) and node.id in cands:
+                return copy.deepcopy(cands[node.id][1])
+            return node
+
+        def visit_FunctionDef(self, node):
+            return node
+        visit_Lambda = visit_FunctionDef
+        visit_AsyncFunctionDef = visit_FunctionDef
+
+    drop = {id(st) for st, v in cands.values()}
+
+    def rewrite(stmts):
+        out = []
+        for st in stmts:
+            if id(st) in drop:
+                continue
+            if isinstance(st, (ast.FunctionDef, ast.AsyncFunctionDef, ast.ClassDef)):
+                out.append(st)
+                continue
+            for fld, val in list(ast.iter_fields(st)):
+                if fld in ("body", "orelse", "finalbody", "handlers"):
+                    continue
+                if isinstance(val, ast.AST):
+                    setattr(st, fld, R().visit(val))
+                elif isinstance(val, list):
+                    setattr(st, fld, [R().visit(v) if isinstance(v, ast.AST) else v for v in val])
+            for fld in ("body", "orelse", "finalbody"):
+                if isinstance(getattr(st, fld, None), list):
+                    new = rewrite(getattr(st, fld))
+                    setattr(st, fld, new or ([ast.Pass()] if fld == "body" else []))
+            for h in getattr(st, "handlers", []) or []:
+                h.body = rewrite(h.body) or [ast.Pass()]
+            out.append(st)
+        return out
+    fn.body = rewrite(fn.body) or [ast.Pass()]
+    return len(cands)
+
+
 def structure_statements(stmts: List[ast.stmt]) -> List[ast.stmt]:
     """Statement-level canonical structure (semantics preserving):
        flag = <boolean expression>;  x = A if flag else B      ->   the test is written where it is used, when nothing in
@@ -966,10 +1058,36 @@ def normalise(modules: Dict[str, "object"]) -> List[str]:
     inl = Inliner(modules, known, dict(json.load(open(KNOWN)).get("literal_loops", {})))
     inl.run()
     if not os.environ.get("VERIF_NO_STRUCTURE"):
+        n_alias = 0
         for modname, mod in modules.items():
             for key, node, cls, encl in function_keys(mod.tree, modname):
                 if not isinstance(node, ast.Assign):
+                    if cls is not None and encl is None:
+                        n_alias += eliminate_self_aliases(node)
                     node.body = structure_statements(node.body)
+        if n_alias:
+            notes.append(f"{n_alias} local alias(es) of self attributes / bound methods written out")
             ast.fix_missing_locations(mod.tree)
     LEFTOVER = sorted(set(getattr(inl, "leftover", [])))
+    # reviewed functions that no longer exist (after undoing renames): the code they held now lives elsewhere in their class /
+    # module, in a shape no rule was written for
+    present = set()
+    for modname, mod in modules.items():
+        for key, node, cls, encl in function_keys(mod.tree, modname):
+            present.add(key)
+    for key in sorted(known):
+        if key in present:
+            continue
+        modname, qual = key.split(":", 1)
+        mod = modules.get(modname)
+        if mod is None:
+            continue
+        parts = qual.split(".")
+        rel = getattr(mod, "relpath", modname)
+        if len(parts) >= 2:
+            for st in mod.tree.body:
+                if isinstance(st, ast.ClassDef) and st.name == parts[0]:
+                    LEFTOVER.append((rel, st.lineno, getattr(st, "end_lineno", st.lineno) or st.lineno, f"the reviewed function `{qual}` no longer exists (its code was moved or merged)"))
+        else:
+            LEFTOVER.append((rel, 1, 10 ** 7, f"the reviewed function `{qual}` no longer exists (its code was moved or merged)"))
     return notes + sorted(set(inl.report)) + [f"NOT RESTORED {rel}:{a}-{b}: {why}" for rel, a, b, why in LEFTOVER]
